@@ -103,6 +103,25 @@ impl Monitor for C20 {
                     }
                 }
             }
+            // E = one construct repeated many times, in a few one-level contexts: the context must see
+            // the value of E whatever E's size or nesting
+            for (fam, k, e) in repetitions(ev, rep_cap(&ctx.config) - 2) {
+                for form in ["({h})*2", "{h}+1", "abs({h})", "1-{h}"] {
+                    if !ctx.mine() {
+                        continue;
+                    }
+                    let s_hole = form.replace("{h}", "@");
+                    let s_e = form.replace("{h}", &format!("({})", e));
+                    let case = Case { ev, kind: "substitute".into(), exprs: vec![s_e, s_hole, e.clone()], phs: vec![Val::zero(ev)], extra: format!("{} x{}", fam, k) };
+                    ctx.check(&case, &|c, st| {
+                        let v = self.judge(c, st);
+                        if let Verdict::Pass { .. } = v {
+                            st.inc("repetition_triples_equal");
+                        }
+                        v
+                    });
+                }
+            }
             let small0 = small_leaf(ev);
             let cfg = GenCfg::full(ev, &leaf);
             let cfg_small = GenCfg::full(ev, &small0);
